@@ -242,3 +242,101 @@ Theorem C06_source_ceil_pow2 : forall n, n < 2 ^ 62 ->
   g_wsutil_ceilPowerOfTwo (Z.of_N n) = Z.of_N (ceil_pow2 n).
 Proof. exact xl_wsutil_ceilPowerOfTwo. Qed.
 Print Assumptions C06_source_ceil_pow2.
+
+(* ------------------------------------------------------------------------------------
+   SetExtensions between two messages and ResetOp INSIDE histories, any number of them.
+   Defined in model/WriterSeg.v (executable; extracted and applied to the observations of
+   the Go code by ocaml/k_writer.ml):
+     c06_segments_apply exts0 steps   = the side conditions, on operations and observations:
+        nothing panicked, no Reset, at most one extension at the start, every SetExtensions
+        attaches at most one extension and is called AT REST (before the first operation,
+        or with only Flush / FlushFragment / Grow / DisableFlush / SetExtensions / nothing since
+        a final Flush that reported no error and left nothing buffered, or since a ResetOp),
+        every ResetOp sets a 4-bit opcode;
+     c06_segments_verdict client op exts0 buflen0 steps log = the history is cut at every
+        SetExtensions and ResetOp; every segment satisfies c06_monitor with the opcode, the
+        extension list and the buffer size in force during it, destination calls counted from
+        its start, and the destination calls base+1 .. (calls counted after the boundary
+        call) as its log - the last segment the whole rest; ResetOp leaves nothing buffered;
+     c06_segments_monitor = both.
+   Defined in proofs/WriterSegProofs.v:
+     seg_op o            = o is in the C06 alphabet, or SetExtensions xs with |xs| <= 1, or
+                           ResetOp op' with op' < 16
+     at_rest w           = nothing buffered, not dirty, fragment counter 0
+     set_ext_at_rest ops w = in the run of ops from w, every SetExtensions finds the model
+                           writer at rest. *)
+Require Import WriterSeg WriterResetOpProofs WriterSegProofs.
+
+(* for EVERY history over Write/ReadFrom/WriteThrough/FlushFragment/Flush/Grow/DisableFlush,
+   SetExtensions (at most one extension) and ResetOp (anywhere, any number), from a fresh
+   writer with extensions [] or [c], in which every SetExtensions is called at rest: the
+   observations and the destination log of the model satisfy the segment monitor - side
+   conditions and verdict. So: every segment is whole frames at every call, one
+   well-formed message per final Flush carrying exactly the accepted bytes and exactly the
+   reserved bits of the extensions attached at that time (none after SetExtensions()),
+   the opcode set by the last ResetOp, and what ResetOp dropped is never sent. *)
+Theorem C06_history_monitor_set_extensions : forall ops w0,
+  writer_inv w0 -> fresh_writer w0 -> w_op w0 < 16 -> Forall wf_key (w_masks w0) ->
+  (w_exts w0 = [] \/ exists c, w_exts w0 = [c]) ->
+  Forall seg_op ops -> set_ext_at_rest ops w0 -> 28 + 4 * ops_cost ops <= max_int ->
+  c06_segments_monitor (client_side (w_state w0)) (w_op w0) (w_exts w0) (w_buflen w0)
+    (steps_of ops (fst (run_wops ops w0))) (dest_log (w_dest (snd (run_wops ops w0)))) = true.
+Proof. exact c06_segments_hold. Qed.
+Print Assumptions C06_history_monitor_set_extensions.
+
+(* the side conditions are exact on the model side: for EVERY history over the extended
+   alphabet (SetExtensions anywhere) they hold of the model's observations if and only if
+   every SetExtensions finds the model writer at rest. Hence, whenever the segmentation
+   applies to what the model shows, the verdict is true (previous theorem). *)
+Theorem C06_segments_apply_iff_at_rest : forall ops w0,
+  writer_inv w0 -> fresh_writer w0 -> w_op w0 < 16 -> Forall wf_key (w_masks w0) ->
+  (w_exts w0 = [] \/ exists c, w_exts w0 = [c]) ->
+  Forall seg_op ops -> 28 + 4 * ops_cost ops <= max_int ->
+  (c06_segments_apply (w_exts w0) (steps_of ops (fst (run_wops ops w0))) = true <-> set_ext_at_rest ops w0).
+Proof. exact c06_segments_apply_iff. Qed.
+Print Assumptions C06_segments_apply_iff_at_rest.
+
+(* NewWriterSize(4), server side, text, MessageState(compressed) attached. Four segments:
+   (1) Write 3 + Write 3 + Flush: fragments 41 04 / 00 02 / ... with RSV1 on the first frame
+   only; (2) SetExtensions() - the EMPTY list: the next message carries no reserved bit;
+   DisableFlush; (3) SetExtensions(uncompressed state): Write 6 grows the buffer, one frame
+   81 06; Write 2 left unflushed; (4) ResetOp(binary) drops the 2 bytes: one frame 82 01.
+   The hypotheses of the theorem hold, the monitor is true; judged against the log of the
+   history in which SetExtensions() does NOT clear the list (seeded defect r6-C06b) it is false. *)
+Example C06_set_extensions_nonvacuous :
+  match new_writer_size (mkDest [] None) 1 1 4 [] with
+  | inr w00 =>
+    let w0 := set_extensions [true] w00 in
+    let ops := [WWrite [10;11;12]; WWrite [13;14;15]; WFlush;
+                WSetExt []; WWrite [1]; WFlush; WDisableFlush;
+                WSetExt [false]; WWrite [1;2;3;4;5;6]; WFlush; WWrite [7;8];
+                WResetOp 2; WWrite [9]; WFlush] in
+    let bad := [WWrite [10;11;12]; WWrite [13;14;15]; WFlush;
+                WSetExt [true]; WWrite [1]; WFlush; WDisableFlush;
+                WSetExt [false]; WWrite [1;2;3;4;5;6]; WFlush; WWrite [7;8];
+                WResetOp 2; WWrite [9]; WFlush] in
+    let '(obs, w1) := run_wops ops w0 in
+    let '(_, w2) := run_wops bad w0 in
+    set_ext_at_rest ops w0 /\
+    dest_log (w_dest w1) = [[65;4;10;11;12;13]; [128;2;14;15]; [129;1;1]; [129;6;1;2;3;4;5;6]; [130;1;9]] /\
+    c06_segments_monitor false 1 [true] (w_buflen w0) (steps_of ops obs) (dest_log (w_dest w1)) = true /\
+    dest_log (w_dest w2) = [[65;4;10;11;12;13]; [128;2;14;15]; [193;1;1]; [129;6;1;2;3;4;5;6]; [130;1;9]] /\
+    c06_segments_monitor false 1 [true] (w_buflen w0) (steps_of ops obs) (dest_log (w_dest w2)) = false
+  | inl _ => False
+  end.
+Proof. vm_compute. repeat split; reflexivity. Qed.
+
+(* ... in particular from every constructor (NewWriterBuffer / NewWriterBufferSize /
+   NewWriterSize) with the extensions exts = [] or [c] attached before the first operation *)
+Theorem C06_history_monitor_set_extensions_constructors : forall ops state op n masks exts w00,
+  (new_writer_buffer (mkDest [] None) state op n masks = inr w00 \/
+   new_writer_buffer_size (mkDest [] None) state op n masks = inr w00 \/
+   new_writer_size (mkDest [] None) state op n masks = inr w00) ->
+  n + 14 <= max_int -> op < 16 -> Forall wf_key masks -> (exts = [] \/ exists c, exts = [c]) ->
+  Forall seg_op ops -> 28 + 4 * ops_cost ops <= max_int ->
+  let w := set_extensions exts w00 in
+  set_ext_at_rest ops w ->
+  c06_segments_monitor (client_side state) op exts (w_buflen w)
+    (steps_of ops (fst (run_wops ops w))) (dest_log (w_dest (snd (run_wops ops w)))) = true.
+Proof. exact constructors_c06_segments. Qed.
+Print Assumptions C06_history_monitor_set_extensions_constructors.
